@@ -9,6 +9,8 @@ Environment *create_environment(void) {
     env->symbols = malloc(sizeof(Symbol) * 8);
     env->symbol_count = 0;
     env->symbol_capacity = 8;
+    env->frame_base = 0;
+    env->globals_end = -1;
     env->functions = malloc(sizeof(Function) * 8);
     env->function_count = 0;
     env->function_capacity = 8;
@@ -304,6 +306,10 @@ void env_define_var_with_type_info(Environment *env, const char *name, Type type
 /* Get variable */
 Symbol *env_get_var(Environment *env, const char *name) {
     for (int i = env->symbol_count - 1; i >= 0; i--) {
+        /* Skip the locals of the callers of the running function */
+        if (env->globals_end >= 0 && i < env->frame_base && i >= env->globals_end) {
+            continue;
+        }
         /* Skip symbols with NULL names */
         if (!env->symbols[i].name) {
             continue;
